@@ -464,6 +464,7 @@ def derivative_arguments(ctx, rep):
 def run(ctx) -> Report:
     rep = Report("C02")
     check_tables(ctx, rep, "C02", RULESETS)
+    check_memo_keys(ctx, rep, "C02-key", [MOD])
     derivative_arguments(ctx, rep)
     from .c02_compose import compose
 
@@ -471,7 +472,6 @@ def run(ctx) -> Report:
     rep.counts["whole_integrand_cases"] = n_comp
     lifted = calc_instances(ctx, rep, "GateauxDerivativeRuleset", "C02", var_shapes=((), (2,)) + (((2, 2),) if ctx.thorough() else ()))
     gateaux_terminals(ctx, rep)
-    check_memo_keys(ctx, rep, "C02-key", [MOD])
     # which operator types of the Gateaux table were not lifted (reported, not alarmed)
     gat = ctx.disp.dt_table(ctx.prog.get_class(f"{MOD}.GateauxDerivativeRuleset"))
     not_lifted = sorted(t.name for t in ctx.tm.operators() if t.name not in lifted and gat.get(t.name) is not None and classify_handler(gat[t.name].func) == "RULE")
